@@ -9,11 +9,12 @@ V = Path(__file__).resolve().parent.parent
 props = [json.loads(l) for l in (V / "properties.jsonl").read_text().splitlines() if l.strip()]
 na = json.loads((V / "tools/not_applicable.json").read_text())
 checks, notapp, known = [], [], []
+registered = set(json.loads((V / "tools/registered.json").read_text()))
 fixed = json.loads((V / "tools/fixed_findings.json").read_text()) if (V / "tools/fixed_findings.json").exists() else []
 for p in props:
     pid = p["id"]
     d = V / "props" / pid
-    if (d / "check.py").exists() and (d / "meta.json").exists():
+    if pid in registered and (d / "check.py").exists() and (d / "meta.json").exists():
         m = json.loads((d / "meta.json").read_text())
         c = {"property_id": pid,
              "quick_cmd": f"./check {pid} --tier quick",
@@ -28,7 +29,7 @@ for p in props:
         if kf.exists():
             known += json.loads(kf.read_text())
     else:
-        notapp.append({"property_id": pid, "reason": na.get(pid, "check not built yet in this round (no claim made)")})
+        notapp.append({"property_id": pid, "reason": na.get(pid, "check under construction: not yet passing review on the unchanged tree, so no claim is made for it at this commit")})
 man = {
     "version": 1,
     "setup_cmd": "./check --setup",
